@@ -118,6 +118,7 @@ func c06Eval(e *Env, m *refplay.Model, c *playCase, report bool) bool {
 	if len(amb) > 0 {
 		panic("C06 harness: alphabet must not contain exactly-halfway durations")
 	}
+	e.R.State(fmt.Sprintf("N=%d,total=%d", c.Cfg.Tracks, total))
 	for ti, tr := range fn.Tracks {
 		if got := smf.EndOfTrackTick(tr); got != total {
 			return fail("C06/end-of-track/"+c.Path+"/"+c06Shape(c), fmt.Sprintf("%s with --track %d: end-of-track of track %d at tick %d, the piece lasts %d ticks", c02Durations(c), c.Cfg.Tracks, ti, got, total))
